@@ -164,6 +164,7 @@ func runC31(x *simkit.Exec) {
 			m := sp.Meta()
 			_ = m.Write(&sb)
 			_ = bkt.Inner.Upload(ctx, sp.ID.String()+"/meta.json", strings.NewReader(sb.String()))
+			bkt.Canon(sp.ID.String())
 		}
 		bkt.Attach(s)
 		var first string
@@ -171,8 +172,8 @@ func runC31(x *simkit.Exec) {
 			for round, conc := range []int{1, x.Range("conc", 2, 8), x.Range("conc2", 1, 8)} {
 				h := bkt.Handle("compactor")
 				dedup := block.NewDeduplicateFilter(conc)
-				ign := block.NewIgnoreDeletionMarkFilter(log.NewNopLogger(), h, 48*hourDur, conc)
-				base, err := block.NewBaseFetcher(log.NewNopLogger(), conc, h, block.NewConcurrentLister(log.NewNopLogger(), h), "", prometheus.NewRegistry())
+				ign := block.NewIgnoreDeletionMarkFilter(log.NewNopLogger(), h, 48*hourDur, 32)
+				base, err := block.NewBaseFetcher(log.NewNopLogger(), 32, h, block.NewConcurrentLister(log.NewNopLogger(), h), "", prometheus.NewRegistry())
 				if err != nil {
 					x.Troublef("fetcher: %v", err)
 					return
